@@ -11,11 +11,11 @@ import (
 
 // Op is one call of the public upcaster API.
 type Op struct {
-	Kind    string `json:"op"`                // "reg" | "clear" | "cleartype"
-	From    string `json:"from"`              // reg: source; cleartype: the type
-	To      string `json:"to,omitempty"`      // reg: declared target
+	Kind    string `json:"op"`                 // "reg" | "clear" | "cleartype"
+	From    string `json:"from"`               // reg: source; cleartype: the type
+	To      string `json:"to,omitempty"`       // reg: declared target
 	NilFunc bool   `json:"nil_func,omitempty"` // reg: the function argument is nil
-	Returns string `json:"returns,omitempty"` // reg: type name the raw upcaster returns ("" = the declared target)
+	Returns string `json:"returns,omitempty"`  // reg: type name the raw upcaster returns ("" = the declared target)
 }
 
 func (o Op) String() string {
